@@ -106,6 +106,9 @@ func (c *Cluster) UpsertRegionHeartbeat(meta manifest.RegionMeta) error {
 	if meta.ID == 0 {
 		return ErrInvalidRegionID
 	}
+	if len(meta.EndKey) > 0 && bytes.Compare(meta.StartKey, meta.EndKey) >= 0 {
+		return fmt.Errorf("%w: region=%d start=%q end=%q", ErrInvalidRegionRange, meta.ID, meta.StartKey, meta.EndKey)
+	}
 
 	c.mu.Lock()
 	defer c.mu.Unlock()
